@@ -111,10 +111,19 @@ def main(chk: core.Check, replay):
     hists = session_histories(chk, 2 if quick else 3)
     # ---- L2: processes under different hash seeds
     models = {}
+    # stratify the witnesses by WHICH dependency sets must be iterated differently to change the layout, so that
+    # every kind of pair (in particular names that differ only in case) is among the models run under several seeds
+    strata = {}
     for w in witnesses:
+        key = tuple(sorted(tuple(sorted(f)) for f in w.get("flipped", [])))
+        strata.setdefault(key, []).append(w)
+    per = 1 if quick else 8
+    chosen = [w for k in sorted(strata, key=lambda k: (len(k), k)) for w in strata[k][:per]]   # single flipped pairs first
+    chk.extra["witness_strata"] = len(strata)
+    for w in chosen:
         t = modelcase.render_text(w["blocks"])
         models.setdefault(t, {"id": f"w{len(models)}", "text": t})
-        if len(models) >= (40 if quick else 300):
+        if len(models) >= (70 if quick else 600):
             break
     for rec in sample_recs[: (30 if quick else 200)]:
         t = modelcase.render_text(rec["blocks"])
